@@ -24,9 +24,15 @@ RULE = ("random trees 1..6 nodes (uniform/chain/star/spider/..., single node), c
         "containing _ket (regression cases of the fixed F-C16b). non-trivial = reference != 0 on a tree with >= 2 nodes or root bond > 1")
 PARTIAL = [
     "value level (the contraction equals <psi|O|psi>) is decided by the dense oracle; Lean proves the structure of "
-    "from_ttns, the identifier maps, the padding lemma and the contraction-order filter",
-    "leg arithmetic of the contraction helpers shared with C04 is proved in Ptn.C04 (all_but_one_legs, "
-    "bra_ignore_one_binds, expectation_binds); _contract_ttno_root / _contract_final_block: oracle only",
+    "from_ttns (ttndo_structure), the identifier maps (suffix_tagging, reverseId_append), the padding lemma "
+    "(padded_root_index, padded_root_no_contribution), the contraction-order filter (contraction_order_kets) and the "
+    "contraction GRAPHS of trace_ttndo and ttndo_ttno_expectation_value incl. _contract_ttno_root, "
+    "_single_site_contraction and _contract_final_block (trace_graph, ttndo_ttno_graph: no exception, no free leg, "
+    "the bound pairs are the specification graph, for every tree and independent child orders of the TTNO), on top "
+    "of the C04 tree model; the graphs are tied to the code by the einsum comparison of the `trace` / `ttno` cases",
+    "that a sum over the bound index pairs equals the dense value (NumPy tensordot semantics, finite-sum algebra) is "
+    "trusted; the model of from_ttns has no legs: that _rec_add_children attaches the right legs is decided by the "
+    "dense contraction of the TTNDO; tensor-product expectation values (deepcopy + absorb) are oracle only",
 ]
 ASSUMPTIONS = ["NumPy tensordot/pad/reshape semantics", "dense contraction by tensordot over labelled legs",
                "the caller passes a root_id that is not an identifier of the TTNDO's ket/bra copies"]
